@@ -223,9 +223,12 @@ class Evidence:
 
 # ---------------------------------------------------------------- driver-based stages
 
-def expand_sets(cfg):
-    """--set name=value arguments of a check; {build} {repo} {verif} {scratch} are expanded."""
-    scratch = os.path.join(WORK, "scratch")
+def expand_sets(cfg, wipe=False):
+    """--set name=value arguments of a check; {build} {repo} {verif} {scratch} are expanded.
+    The scratch directory is per check (sources name it through cfg["sources"][-1]) and emptied when a check starts."""
+    scratch = os.path.join(WORK, "scratch", os.path.basename(cfg["sources"][-1]).split("_")[0])
+    if wipe:
+        shutil.rmtree(scratch, ignore_errors=True)
     os.makedirs(scratch, exist_ok=True)
     out = []
     for kv in cfg.get("set", []):
@@ -297,7 +300,7 @@ def driver_check(prop, tier, scale, cfg, ev):
     variant = cfg["variant"]
     exe = build_driver_binary(prop, variant, cfg["sources"], cfg.get("cflags", ()), cfg.get("ldflags", ()))
     kargs = known_args(prop)
-    sets = expand_sets(cfg)
+    sets = expand_sets(cfg, wipe=True)
     for k in cfg.get("excludes", []):
         kargs = kargs + ["--exclude", k]
     common = kargs + sets + ["--tier", tier]
